@@ -370,11 +370,14 @@ impl CelValue {
 
     pub fn neq(self, rhs: CelValue) -> CelValue {
         self.error_prop_or(rhs, |lhs, rhs| {
-            if let CelValue::Bool(res) = CelValueDyn::eq(&lhs, &rhs) {
-                return CelValue::from_bool(!res);
+            match CelValueDyn::eq(&lhs, &rhs) {
+                CelValue::Bool(res) => CelValue::from_bool(!res),
+                CelValue::Err(err) => CelValue::from_err(err),
+                other => CelValue::from_err(CelError::invalid_op(&format!(
+                    "'==' produced {:?} instead of a bool",
+                    other.as_type()
+                ))),
             }
-
-            unreachable!();
         })
     }
 
